@@ -39,6 +39,9 @@ pub struct Dut {
     pub restart_on: Option<u16>,
     /// the handler itself sends two probe messages
     pub handler_sends: bool,
+    /// at_sim_end reports an error (the tear-down event is bracketed all the same)
+    #[serde(default)]
+    pub end_err: bool,
 }
 
 #[derive(Debug, Clone, Serialize, Deserialize, PartialEq)]
@@ -194,6 +197,9 @@ impl Module for DutModule {
 
     fn at_sim_end(&mut self) -> Result<(), RuntimeError> {
         log(Entry { dut: self.idx, hook: Hook::SimEnd, idx: 0, id: 0, tags: 0, passed: true });
+        if self.dut.end_err {
+            return Err(RuntimeError::from(std::io::Error::other("dut reports a failure at the end")));
+        }
         Ok(())
     }
 }
@@ -259,9 +265,17 @@ pub struct Obs {
 pub fn check(case: &Case, log: &[Entry], result: &Result<(), String>) -> (Vec<Finding>, Obs) {
     let mut f: Vec<Finding> = Vec::new();
     let mut obs = Obs::default();
-    if let Err(e) = result {
-        f.push(("run-error", format!("run() failed: {e}")));
-        return (f, obs);
+    let err_expected = case.duts.iter().any(|d| d.end_err);
+    match result {
+        Err(e) if !err_expected || e.starts_with("panicked") => {
+            f.push(("run-error", format!("run() failed: {e}")));
+            return (f, obs);
+        }
+        Ok(()) if err_expected => {
+            f.push(("run-error", "a module returned an error from at_sim_end but run() returned Ok".into()));
+            return (f, obs);
+        }
+        _ => {}
     }
     let n_duts = case.duts.len();
     // entries of the sink's own elements (dut index out of range) and probes are not part of dut brackets
@@ -517,6 +531,7 @@ pub fn gen_case(rng: &mut Rng) -> Case {
                 sleeps: (0..rng.usize_below(4)).map(|_| (1 + rng.below(500)) * 1_000_000 + 500_000).collect(),
                 restart_on,
                 handler_sends: rng.chance(1, 2),
+                end_err: rng.chance(1, 6),
             }
         })
         .collect();
@@ -550,6 +565,7 @@ pub fn cmd(args: &Args) -> Report {
         rep.count("start_stage_brackets", obs.start_brackets);
         rep.count("restart_stage_brackets", obs.restart_brackets);
         rep.count("teardown_brackets", obs.end_brackets);
+        rep.count("teardowns_reporting_an_error", case.duts.iter().filter(|d| d.end_err).count() as u64);
         rep.count("messages_sent_from_hooks_received", obs.probes);
         let k_max = case.duts.iter().map(|d| d.own.len() + case.global.len()).max().unwrap_or(0);
         rep.count(&format!("cases_with_stack_of_{k_max}"), 1);
